@@ -332,7 +332,7 @@ class Prop(SeqProp):
             out.append({"kind": "odd-elements", "seed": rng.randrange(1 << 30)})
         # Batcher iterated (for / list / zip) and indexed, over sequences that are not lists: str, bytes, range, tuples of them
         for _ in range(60 if tier == "quick" else 600):
-            out.append({"kind": "batcher-sequences", "n": rng.randint(0, 11), "b": rng.randint(1, 5), "type": rng.randrange(9)})
+            out.append({"kind": "batcher-sequences", "n": rng.randint(0, 11), "b": rng.randint(1, 5), "type": rng.randrange(10)})
         return out
 
     def run_extra(self, desc):
@@ -387,7 +387,18 @@ class Prop(SeqProp):
                     (list(range(n)),), (list(range(n)), "abcdefghijk"[:n], [None] * n),
                     # members that are sequences by behaviour only (`__len__` and `__getitem__` with slices, like arrays of a
                     # numeric library): not registered with collections.abc.Sequence
-                    (_Duck(list(range(n))), _Duck("abcdefghijk"[:n])), (list(range(n)), _Duck(list(range(n))))][desc["type"]]
+                    (_Duck(list(range(n))), _Duck("abcdefghijk"[:n])), (list(range(n)), _Duck(list(range(n)))),
+                    list(range(n))][desc["type"]]
+            if desc["type"] == 9:
+                # BatcherIter over objects that are iterable only through the old protocol (`__getitem__` from 0 until IndexError)
+                try:
+                    got_l = [list(x) for x in g.BatcherIter(_Duck(list(range(n))), b)]
+                    got_t = [tuple(list(m) for m in x) for x in g.BatcherIter((_Duck(list(range(n))), iter(range(n))), b)]
+                except Exception as e:  # noqa
+                    return f"BatcherIter over an object iterable through __getitem__ only raised {type(e).__name__}: {e}"
+                want_l = [list(range(n))[j * b:(j + 1) * b] for j in range(-(-n // b))]
+                if got_l != want_l or got_t != [(x, x) for x in want_l]:
+                    return f"BatcherIter over an object iterable through __getitem__ only (n={n}, batch {b}): {got_l} / {got_t}"
             try:
                 if isinstance(data, tuple):
                     # the iterator flavour on the same tuple (its members consumed as iterables): batches of lists in lock-step
